@@ -98,6 +98,8 @@ MapFuncFinger(r) ==
 \* under :struct, and `map . X` with a pointer source.  Whatever goverter decides, a reported success must compile.
 UpdOddFinger(r) ==
   IF r.gen = "panic" THEN {<<"C13", "generator-panic", r.why, r.id>>}
+  ELSE IF r.prog.x = "pointer-source-fault" THEN       \* string -> int without a custom function below an update method with a pointer source: must be refused
+       (IF r.gen = "ok" THEN {<<"C03", "accepted-inconvertible", "update-pointer-source", r.id>>, <<"C17", "failing-input-reported-as-success", "update-pointer-source", r.id>>} ELSE {})
   ELSE IF r.gen = "ok" /\ ~r.compiles THEN {<<"C01", "does-not-compile", "update-" \o r.prog.x, r.id>>} ELSE {}
 \* C11, default constructors: res = [nil, A, B] of the returned struct (nil: a nil pointer was returned)
 DMatch(e, got) == e = -1 \/ e = got
